@@ -102,6 +102,72 @@ impl Gen<'_> {
 			_ => "(1/0)".into(),
 		}
 	}
+	/// wrap in std.trace with a fresh label unconditionally (C03): a position that must stay unevaluated
+	fn labelled(&mut self, e: String) -> String {
+		if self.traces {
+			self.label += 1;
+			format!("std.trace(\"L{}\", {e})", self.label)
+		} else {
+			e
+		}
+	}
+	/// std higher-order functions whose callback does not use the element (or the initial
+	/// accumulator): the documented definitions hand `arr[i]` (and `init`) to the callback
+	/// unevaluated, so a failing or traced element must stay unobservable (C03 / C10)
+	fn hof_unused(&mut self, d: usize) -> String {
+		self.note("hof-unused");
+		let n = 1 + self.rng.below(3);
+		let es: Vec<String> = (0..n)
+			.map(|_| {
+				if self.rng.chance(1, 2) {
+					self.bomb()
+				} else {
+					let e = self.expr(Ty::Num, d.min(1));
+					self.labelled(e)
+				}
+			})
+			.collect();
+		let lit = format!("[{}]", es.join(", "));
+		let arr = match self.rng.below(7) {
+			0 => format!("({lit} + [])"),
+			1 => format!("std.reverse({lit})"),
+			2 => format!("{lit}[0:]"),
+			3 => format!("([0] + {lit})[1:]"),
+			_ => lit,
+		};
+		let init = self.expr(Ty::Num, 0);
+		match self.rng.below(10) {
+			0 => format!("std.foldl(function(acc, x) acc, {arr}, {init})"),
+			1 => format!("std.foldl(function(acc, x) acc + 1, {arr}, {init})"),
+			2 => format!("std.foldr(function(x, acc) acc, {arr}, {init})"),
+			3 => format!("std.foldr(function(x, acc) acc + 1, {arr}, {init})"),
+			4 | 5 => {
+				// the initial accumulator is an argument of the first call only: a callback that ignores
+				// `acc` never evaluates it (it is the result only for the empty collection)
+				let unused = if self.rng.chance(2, 3) { self.bomb() } else { let e = self.expr(Ty::Num, 0); self.labelled(e) };
+				let coll = match self.rng.below(5) {
+					0 => "\"ab\"".to_string(),
+					1 => "[]".to_string(),
+					_ => self.expr(Ty::Arr, d),
+				};
+				match self.rng.below(4) {
+					0 => format!("std.foldl(function(acc, x) x, {coll}, {unused})"),
+					1 => format!("std.foldr(function(x, acc) x, {coll}, {unused})"),
+					2 => format!("std.foldl(function(acc, x) 7, {coll}, {unused})"),
+					_ => format!("std.foldr(function(x, acc) 7, {coll}, {unused})"),
+				}
+			}
+			6 => format!("std.length(std.filter(function(x) true, {arr}))"),
+			7 => format!("std.filter(function(x) true, {arr})[{}]", self.rng.below(n + 1)),
+			8 => format!("std.length(std.filter(function(x) false, {arr})) + std.foldl(function(acc, x) acc, {arr}, {init})"),
+			_ => {
+				// a shared array: the fold must not evaluate what the index expression does not read
+				let x = self.fresh("hu");
+				let i = self.rng.below(n);
+				format!("(local {x} = {arr}; std.foldl(function(acc, x) acc + 1, {x}, 0) + std.foldr(function(x, acc) acc, {x}, {init}) + {x}[{i}])")
+			}
+		}
+	}
 	fn expr(&mut self, ty: Ty, depth: usize) -> String {
 		// 6 %: deliberately ill-typed or failing sub-term
 		if self.rng.chance(3, 100) {
@@ -277,6 +343,7 @@ impl Gen<'_> {
 					self.note("unary");
 					format!("(-{})", self.expr(Ty::Num, d))
 				}
+				10 => self.hof_unused(d),
 				_ => self.leaf(ty),
 			},
 			Ty::Bool => match self.rng.below(8) {
@@ -730,7 +797,7 @@ pub fn run_engine(opts: &Opts, traces: bool) {
 	let meta = json!({
 		"engine": opts.engine.clone(), "cases": w.n, "construct_hist": hist, "outcome_hist": outcomes,
 		"evaluated_with_legacy_parser": legacy, "embedding_differs": embed_diff,
-		"rule":"type-directed random programs (depth<=4 quick / 5 thorough) over locals, closures, functions with positional/named/default parameters in random call styles, conditionals, arithmetic/comparison/logic/bitwise operators, string repetition, std.join/reverse/foldr/flattenArrays/objectValues, strings, arrays and comprehensions, indexing and slicing, objects with inheritance/visibility/self/super/$/locals/asserts/methods/computed names, error and assert; ~5% ill-typed or failing sub-terms; outcome = manifested JSON (numbers as IEEE bit patterns) or error class, plus the sorted multiset of std.trace labels"
+		"rule":"type-directed random programs (depth<=4 quick / 5 thorough) over locals, closures, functions with positional/named/default parameters in random call styles, conditionals, arithmetic/comparison/logic/bitwise operators, string repetition, std.join/reverse/foldr/flattenArrays/objectValues, std.foldl/foldr/filter over arrays with failing or traced elements under callbacks that ignore the element (and failing initial accumulators under callbacks that ignore it), strings, arrays and comprehensions, indexing and slicing, objects with inheritance/visibility/self/super/$/locals/asserts/methods/computed names, error and assert; ~5% ill-typed or failing sub-terms; outcome = manifested JSON (numbers as IEEE bit patterns) or error class, plus the sorted multiset of std.trace labels"
 	});
 	drop(guard);
 	w.finish(meta, &opts.out);
